@@ -60,3 +60,43 @@ CONTRACTS['retrieve_shortest_path'] = Contract(
         ('has-reported-total-length', "implies(not result_is_empty(), acc == SPL[s0, t])"),
         ('arguments-untouched', "And(unchanged('hops'), unchanged('Pmat'))"),
     ])
+
+
+# ---- distance_bin (C03): the returned matrix holds the length of a shortest walk (= shortest path) for every ordered pair of
+# distinct nodes, INF exactly where there is none, 0 on the diagonal.  np.inf is the real constant INF (required: INF > n).
+# walk / sdist are spec functions whose defining facts (lemma_walks) are code-independent (Lean).
+def _setup_db(eng, st):
+    n = z3.Int('n')
+    st.pc.append(n >= 1)
+    st.ghost['n0'] = n
+    st.env['G'] = alloc(st, 2, z3.Const('G0', A2R), (n, n), REAL)
+
+
+DB_INV = [
+    ('shape', 'And(n >= 1, len(G) == n0)'),
+    ('G-is-binarised-input', "forall(lambda x, y: implies(And(inr(x, n0), inr(y, n0)), G[x, y] == (1 if arg('G')[x, y] != 0 else 0)))"),
+    ('P1a-nPATH-nonnegative', "forall(lambda x, y: implies(And(inr(x, n0), inr(y, n0)), nPATH[x, y] >= 0))"),
+    ('P1b-nPATH-nonzero-only-for-walks-of-length-n', "forall(lambda x, y: implies(And(inr(x, n0), inr(y, n0), nPATH[x, y] != 0), walk(G, x, y, n)), pattern=nPATH[x, y])"),
+    ('P1c-every-walk-of-length-n-is-in-nPATH', "forall(lambda x, y: implies(And(inr(x, n0), inr(y, n0), walk(G, x, y, n)), nPATH[x, y] != 0), pattern=walk(G, x, y, n))"),
+    ('P2-found-entries-are-shortest', "forall(lambda x, y: implies(And(inr(x, n0), inr(y, n0), x != y, D[x, y] != 0), And(D[x, y] == sdist(G, x, y), sdist(G, x, y) >= 1, sdist(G, x, y) < n)))"),
+    ('P3-open-entries-have-no-shorter-walk', "forall(lambda x, y: implies(And(inr(x, n0), inr(y, n0), x != y, D[x, y] == 0), Or(sdist(G, x, y) == 0, sdist(G, x, y) >= n)))"),
+    ('P4-diagonal-marked', "forall(lambda x: implies(inr(x, n0), D[x, x] >= 1))"),
+    ('L-is-the-new-pairs', "forall(lambda x, y: implies(And(inr(x, n0), inr(y, n0)), iff(L[x, y], And(nPATH[x, y] != 0, Or(D[x, y] == 0, n == 1)))))"),
+    ('FRAME-argument-untouched', "unchanged('G')"),
+]
+CONTRACTS['distance_bin'] = Contract(
+    MOD, 'distance_bin', ['G'], setup=_setup_db, dot_support=True,
+    requires=[('infinity-exceeds-any-hop-count', 'INF > n0')],
+    loops={'while np.any(L)': {'name': 'powers', 'inv': DB_INV}},
+    ghost_after={'n = 1': "assume(lemma_walks(G, n0))", 'body:while np.any(L)': "assume(lemma_walks(G, n0))",
+                 'while np.any(L)': "assume(lemma_walks(G, n0, n)); "
+                                    "check('exit-no-new-pair', forall(lambda x, y: implies(And(inr(x, n0), inr(y, n0)), not L[x, y]))); "
+                                    "check('exit-no-open-pair-at-distance-n', forall(lambda x, y: implies(And(inr(x, n0), inr(y, n0), x != y, D[x, y] == 0), sdist(G, x, y) != n))); "
+                                    "check('exit-no-open-pair-beyond-n', forall(lambda x, y: implies(And(inr(x, n0), inr(y, n0), x != y, D[x, y] == 0), sdist(G, x, y) <= n)))"},
+    ghost_before={'body:while np.any(L)': "assume(lemma_walks(G, n0))",
+                  'D[D == 0] = np.inf': "check('found-entries-are-integers', forall(lambda x, y: implies(And(inr(x, n0), inr(y, n0), x != y, D[x, y] != 0), D[x, y] < INF)))"},
+    ensures=[('distance-is-shortest-walk-length', "forall(lambda x, y: implies(And(inr(x, n0), inr(y, n0), x != y, sdist(G, x, y) >= 1), result()[x, y] == sdist(G, x, y)))"),
+             ('infinite-when-no-walk', "forall(lambda x, y: implies(And(inr(x, n0), inr(y, n0), x != y, sdist(G, x, y) == 0), result()[x, y] == INF))"),
+             ('infinite-only-when-no-walk', "forall(lambda x, y: implies(And(inr(x, n0), inr(y, n0), x != y, result()[x, y] == INF), sdist(G, x, y) == 0))"),
+             ('diagonal-zero', "forall(lambda x: implies(inr(x, n0), result()[x, x] == 0))"),
+             ('argument-untouched', "unchanged('G')")])
